@@ -29,7 +29,8 @@ RULE = ("Hypothesis-generated tables (1-3 snapshots, 1-4 data files, optionally 
         "{default on, off} x filter {none, pruning, non-pruning}. A metadata-plane damage is in the domain only if an independent parser (json / fastavro + "
         "legacy JSON shape) also rejects the bytes. Mid-read damage: a table with a multi-row-group data file; the file is replaced (sibling's bytes, flipped byte, "
         "truncation, random bytes, deletion) right after EACH traced storage call that touches it during a verified read, or while a lazy read is suspended "
-        "after its first item; the read must raise or return exactly the table. Non-trivial: the damaged file is needed by the read. distinct = (table, file class, damage, api, verify, filter).")
+        "after its first item; the read must raise or return exactly the table. Racing commit: a manifest / data file of the current snapshot deleted or cut, and "
+        "another handle commits an append right after the k-th traced call of the read, for every k: the read must still raise. Non-trivial: the damaged file is needed by the read. distinct = (table, file class, damage, api, verify, filter).")
 ASSUMPTIONS = ["'needed' is fixed per API from its documentation: scans need pointer->metadata->manifest list->manifests->every unpruned data file; row_count "
                "needs the metadata plane only", "a replacement that still parses (sibling bytes, benign flip) is unconstrained with verification off",
                "damage to the pointer itself is C10's subject and is not generated here"]
@@ -371,9 +372,94 @@ def check_midread(case):
     return out
 
 
+# ---------------- damage + a commit that lands while the read is in progress ----------------
+@st.composite
+def racing_case(draw):
+    return {"kind": "racing", "world": draw(st.sampled_from(["local", "local", "s3cas"])), "nfiles": draw(st.integers(2, 3)), "cut": draw(st.integers(1, 4000)),
+            "apis": draw(st.lists(st.sampled_from(["scan", "scan_par2", "batches1", "batches_big", "iter_records", "row_count"]), min_size=2, max_size=3, unique=True))}
+
+
+def check_racing(case):
+    """A manifest or data file of the current snapshot is missing / cut, AND another handle commits an append at some point
+    during the read (forced after the k-th traced call of the read, for every k). An append carries the damaged file
+    over, so it is needed before and after that commit: the read must raise, whichever snapshot it ends up planning."""
+    out = {"violations": [], "labels": [f"world:{case['world']}", "racing-commit"], "nontrivial": True}
+    with scratch_dir("c14r") as d:
+        w = c04.make_world(d, case["world"])
+        with w.env():
+            t = w.create(make_schema(FIELDS))
+            for i in range(case["nfiles"]):
+                t.append_records([{"k": 10 * i + j, "s": f"f{i}"} for j in range(2)])
+        v = read_view(w.fs())
+        cur = current_snapshot(v)
+        fs = w.fs()
+        targets = [("manifest", cur["manifests"][0]), ("data", cur["files"][0])]
+        for cls, path in targets:
+            orig = fs.get(path)
+            for dname, payload in (("delete", None), ("truncate", orig[: max(1, case["cut"] % len(orig))])):
+                if cls == "manifest" and payload is not None and _parse_ok(cls, payload):
+                    continue
+                for api in case["apis"]:
+                    if cls == "data" and api == "row_count":
+                        continue
+                    k, nev = 0, None
+                    while nev is None or k <= nev:
+                        wi = w.clone(f"{d}/r{cls}{dname}{api}{k}") if w.kind == "local" else w.clone()
+                        _set(wi, path, payload)
+                        sti = Stepper()
+                        state = {"n": 0, "busy": False, "done": False}
+                        with wi.env(sti):
+                            other = wi.open()
+                            t2 = wi.open()
+
+                            def h(nn, phase, label, target, info, k=k):
+                                if phase != "after" or state["busy"] or state["done"]:
+                                    return
+                                state["n"] += 1
+                                if state["n"] == k:
+                                    state["busy"] = True
+                                    try:
+                                        other.append_records([{"k": 777, "s": "racing"}])
+                                        state["done"] = True
+                                    except Exception:
+                                        state["done"] = "failed"
+                                    finally:
+                                        state["busy"] = False
+
+                            sti.handler = h
+                            sti.enabled = True
+                            try:
+                                got = _read(t2, api, None, None)
+                            except Exception as e:  # noqa
+                                got = ("raise", type(e).__name__)
+                            sti.enabled = False
+                        if nev is None:
+                            nev = state["n"]  # k = 0: no interloper, counts the traced calls of this read
+                        out["labels"].append("racing:raised" if got[0] == "raise" else "racing:returned")
+                        if state["done"] is True:
+                            out["labels"].append("commit-landed-during-read")
+                        if got[0] != "raise":
+                            out["violations"].append((f"fail-open/{cls}/{dname}/with-commit-during-read" if k else f"fail-open/{cls}/{dname}/returned-{'empty' if got[0] == 'rows' and not got[1] else 'rows'}",
+                                                      f"{case['world']}: {cls} file {path} damaged by {dname}; another handle committed an append after traced call #{k} of {api}(); the read returned {_short(got)} instead of raising"))
+                        if wi.kind == "local":
+                            import shutil
+
+                            shutil.rmtree(wi.root, ignore_errors=True)
+                        k += 1
+    seen_b, uniq = set(), []
+    for b, wht in out["violations"]:
+        if b not in seen_b:
+            seen_b.add(b)
+            uniq.append((b, wht))
+    out["violations"] = uniq
+    out["labels"] = sorted(set(out["labels"]))
+    return out
+
+
 def plan(tier, seed):
     n = 2 if tier == "quick" else 40
     tasks = [{"n": n, "seed": seed * 1000 + s, "tier": tier} for s in range(16)]
+    tasks += [{"kind": "racing", "n": 1 if tier == "quick" else 12, "seed": seed * 1000 + 800 + s, "tier": tier} for s in range(4 if tier == "quick" else 16)]
     tasks += [{"kind": "midread", "n": 2 if tier == "quick" else 30, "seed": seed * 1000 + 500 + s, "tier": tier} for s in range(4 if tier == "quick" else 16)]
     return tasks
 
@@ -382,6 +468,9 @@ def run_task(task):
     res = Result()
     if task.get("kind") == "midread":
         campaign(midread_case(), check_midread, task["n"], task["seed"], res, PROP, shrink=False)
+        return res
+    if task.get("kind") == "racing":
+        campaign(racing_case(), check_racing, task["n"], task["seed"], res, PROP, shrink=False)
         return res
     extra = set()
 
@@ -400,6 +489,9 @@ def run_task(task):
 def replay(case):
     if case.get("kind") == "midread":
         o = check_midread(case)
+        return [{"bucket": b, "what": w} for b, w in o["violations"]]
+    if case.get("kind") == "racing":
+        o = check_racing(case)
         return [{"bucket": b, "what": w} for b, w in o["violations"]]
     o = check_table(case)
     return [{"bucket": b, "what": w} for b, w in o["violations"]]
